@@ -86,7 +86,7 @@ func (s C01) Init(env world.Env) mc.Model {
 	start := env.Ctx().BlockHeight()
 	mustOK(env.Deliver(storagetypes.NewMsgPostFile(u, c01F1.merkle, int64(len(c01F1.data)), 0, 0, 3, "{}")), "PostFile")
 	if s.Two {
-		mustOK(env.Deliver(storagetypes.NewMsgPostFile(u, c01F2.merkle, int64(len(c01F2.data)), 0, 0, 1, "{}")), "PostFile f2")
+		mustOK(env.Deliver(storagetypes.NewMsgPostFile(u, c01F2.merkle, int64(len(c01F2.data)), 0, 1, 1, "{}")), "PostFile f2") // proof type 1: the field is client-supplied and unvalidated
 	}
 	return c01Model{Start: start, Proven: map[string]bool{}, Signed: map[string][]string{}}
 }
@@ -101,6 +101,7 @@ func (s C01) Events(env world.Env, mm mc.Model) []string {
 		evs = append(evs, "Proof:P1:f1:valid", "Proof:P2:f1:valid", "Proof:P3:f1:valid", "Proof:P1:f1:otherAtChallenged")
 		if m.Proven2 == "" {
 			evs = append(evs, "Proof2:P2", "Proof2:P1") // the honest join proof (chunk 0) of the second file
+			evs = append(evs, "Proof2Bad:P3")           // a payload that does not verify
 		}
 		if m.Blocks < 8 {
 			evs = append(evs, "NextBlock")
@@ -283,6 +284,14 @@ func (C01) Apply(env world.Env, mm mc.Model, ev string) mc.Step {
 						after[a].AmountOf("ujkl").Sub(before[a].AmountOf("ujkl")), env.Ctx().BlockHeight()))
 				}
 			}
+		}
+	case "Proof2Bad":
+		before := w.DumpStore(env.Ctx(), "storage")
+		_, hl := c01F2.proofFor(0)
+		ok, _ := postProofOK(w, env.Deliver(storagetypes.NewMsgPostProof(w.A(p[1]).Bech, c01F2.merkle, u, m.Start, []byte("not the chunk"), hl, 0)))
+		st.Exercised = append(st.Exercised, "invalid-proof")
+		if ok || !storeEqual(before, w.DumpStore(env.Ctx(), "storage")) {
+			vs = append(vs, viol("invalid-proof-changes-nothing", "second-file", "%s: a payload that does not verify against the second file (posted with proof type 1) was accepted=%v or changed the store", ev, ok))
 		}
 	case "Proof2":
 		item, hl := c01F2.proofFor(0)
